@@ -626,6 +626,34 @@ func runC13Migrate(s *kernel.Sim) {
 			ref.Peers[id] = ps
 		}
 	}
+	// a pool that has seen a realistic number of identities: every id is a 128-digit enode id, every identity
+	// has a node record, a trial balance, often a peer set, and a saved nonce - the tables lie next to each
+	// other in key order and their keys have the same length
+	type savedNonce struct {
+		id    string
+		nonce int64
+	}
+	var savedNonces []savedNonce
+	crowd := []int{0, 0, 0, 101, 130, 260}[s.Choose("crowd", 6)]
+	for i := 0; i < crowd; i++ {
+		id := store.NodeID(hexID(5000 + i))
+		n := store.Node{ID: id, Kind: kinds[i%3], IsHost: i%2 == 0, LastSeen: time.Now().Add(-time.Duration(i) * time.Second), URI: "enode://" + string(id) + "@1.2.3.4:30303"}
+		put("vip:node:"+string(id), &n)
+		ref.SetNode(n)
+		amt := big.NewInt(int64(1000 + i))
+		b := store.Balance{}
+		b.Credit.Set(amt)
+		put("vip:trial:"+string(id), &b)
+		ref.AddNodeBalance(id, amt)
+		if i%2 == 1 {
+			ps := map[store.NodeID]time.Time{store.NodeID(hexID(5000 + i - 1)): time.Now().Add(-time.Second)}
+			put("vip:peers:"+string(id), &ps)
+			ref.Peers[id] = ps
+		}
+		nonce := time.Now().UnixNano() - int64(i)
+		put("vip:nonce:"+string(id), &nonce)
+		savedNonces = append(savedNonces, savedNonce{string(id), nonce})
+	}
 	nNonce := s.Choose("nnonce", 40)
 	if s.Choose("manynonces", 3) == 0 {
 		// more keys than the iterator prefetches at once (badger recycles its item buffers)
@@ -633,7 +661,9 @@ func runC13Migrate(s *kernel.Sim) {
 	}
 	for i := 0; i < nNonce; i++ {
 		nonce := time.Now().UnixNano() - int64(i)
-		put("vip:nonce:"+strings.Repeat("a", 1+s.Choose("idlen", 130))+fmt.Sprint(i), &nonce)
+		id := strings.Repeat("a", 1+s.Choose("idlen", 130)) + fmt.Sprint(i)
+		put("vip:nonce:"+id, &nonce)
+		savedNonces = append(savedNonces, savedNonce{id, nonce})
 	}
 	if version > 0 {
 		v := version
@@ -696,6 +726,14 @@ func runC13Migrate(s *kernel.Sim) {
 			aspect = diff[:k]
 		}
 		s.Violate("migrate", "migration changes nodes or balances ("+aspect+")", "format %d -> current: %s", version, diff)
+	}
+	// accepted nonces are part of what is read back: a request honoured before the upgrade (its nonce is still inside the
+	// freshness window) must not be honoured again after it
+	if len(savedNonces) > 0 {
+		k := s.Choose("replaynonce", len(savedNonces))
+		if err := st.CheckAndSaveNonce(savedNonces[k].id, savedNonces[k].nonce); err != store.ErrInvalidNonce {
+			s.Violate("at_most_once", "a nonce accepted before the format upgrade is accepted again after it", "format %d -> current: identity %s nonce %d (saved %s before the upgrade): CheckAndSaveNonce returned %v, want ErrInvalidNonce", version, short10(savedNonces[k].id), savedNonces[k].nonce, time.Since(time.Unix(0, savedNonces[k].nonce)), err)
+		}
 	}
 	seams.CloseStore(s, st)
 	after1, err := dumpDB(dir, "vip:nonce:")
